@@ -272,6 +272,26 @@ fn forge_plan(seed: u64, mut r: Rng, c: Cfg) -> Plan {
     } else {
         None
     };
+    // key-phase probes: an EXTRA copy of a mid-stream stream packet with only the KEY_PHASE bit
+    // (bit 0 of the first byte) flipped, just before or after the original.  Drawn from its own
+    // generator so that the rest of the plan is unchanged.
+    {
+        let mut k = Rng::new(hashn(seed, &[0x6b70]));
+        if k.chance(2, 3) {
+            for dir in [DIR_C2S, DIR_S2C] {
+                if k.chance(3, 4) {
+                    forges.push(Forge {
+                        dir,
+                        ord: k.range(1, 2 + est / 6),
+                        kind: Some(0),
+                        replace: false,
+                        skew_us: k.pick(&[-1i64, 1, 1, (c.base_delay_us / 2) as i64, -((c.base_delay_us / 2) as i64)]),
+                        mutation: Mutation::Flip { region: Region::Tag, frac: 0, xor: 0x01 },
+                    });
+                }
+            }
+        }
+    }
     Plan {
         seed,
         property: "C18".into(),
